@@ -5,7 +5,7 @@ open Lean PonyVerif.Drive PonyVerif.Model.ConnLock
 
 /-
   request  {"op":"run", "init":{"n":k,"nextCon":c,"poolPid":b,"closed":[..]},
-            "sessions":[{"immediate":b,"ddl":b,"reconnect":b,"bodyRaises":b,"faults":[global call indices that raise],
+            "sessions":[{"immediate":b,"ddl":b,"reconnect":b,["initGuard":b,]"bodyRaises":b,"faults":[global call indices that raise],
                          "prog":[["query",caught] | ["write",many,caught] | ["modify",[many..],caught] | ["flush",caught]
                                  | ["commit",caught] | ["rollback",caught] | ["getConnection",caught]]}]}
   reply    {"sessions":[{"outcome":"ok"|exception kind, "events":[...], "state":{...}}]}
@@ -88,7 +88,8 @@ def handle (j : Json) : Except String Json := do
       for sj in sess do
         let faults ← natsOfJson (← sj.getObjVal? "faults")
         let cf : Cfg := { fails := fun i => faults.contains i, immediate := ← argBool sj "immediate", ddl := ← argBool sj "ddl",
-                          reconnect := ← argBool sj "reconnect" }
+                          reconnect := ← argBool sj "reconnect",
+                          initGuard := (sj.getObjValAs? Bool "initGuard").toOption.getD false }
         let prog ← (← argArr sj "prog").mapM opOfJson
         let br ← argBool sj "bodyRaises"
         let before := s.trace.length
